@@ -4750,13 +4750,19 @@ archive_write_disk_set_acls(struct archive *a, int fd, const char *name,
 #endif
 
 /*
- * Close the file descriptor if one is open.
+ * Close the file descriptor if one is open.  This is used when an entry
+ * is abandoned because of an error: a temporary file that has not been
+ * renamed over its target is removed as well.
  */
 static void close_file_descriptor(struct archive_write_disk* a)
 {
 	if (a->fd >= 0) {
 		close(a->fd);
 		a->fd = -1;
+	}
+	if (a->tmpname != NULL) {
+		unlink(a->tmpname);
+		a->tmpname = NULL;
 	}
 }
 
